@@ -55,11 +55,11 @@ rep('''	set := append(append(cU16(2), cU16(4+len(rec))...), rec...)
 	return append(msg, set...)''', '''	set := append(append(cU16(0), cU16(4+len(rec))...), rec...)
 	msg := append([]byte{0, 9, 0, 1}, make([]byte, 16)...)
 	return append(msg, set...)''')
-rep('''	rec := append(append(append(cU16(id), cU16(3)...), cU16(2)...), append(append(cU16(210), cU16(a)...), append(append(cU16(210), cU16(b)...), append(cU16(210), cU16(1)...)...)...)...)
+rep('''	rec := append(append(append(cU16(id), cU16(4)...), cU16(3)...), append(append(cU16(210), cU16(a)...), append(append(cU16(210), cU16(b)...), append(append(cU16(210), cU16(1)...), append(cU16(210), cU16(1)...)...)...)...)...)
 	set := append(append(cU16(3), cU16(4+len(rec))...), rec...)
 	msg := append(append([]byte{0, 10}, cU16(16+len(set))...), make([]byte, 12)...)
 	return append(msg, set...)''', '''	// NetFlow v9 options template: scope length and option length in octets
-	rec := append(append(append(cU16(id), cU16(8)...), cU16(4)...), append(append(cU16(210), cU16(a)...), append(append(cU16(210), cU16(b)...), append(cU16(210), cU16(1)...)...)...)...)
+	rec := append(append(append(cU16(id), cU16(12)...), cU16(4)...), append(append(cU16(210), cU16(a)...), append(append(cU16(210), cU16(b)...), append(append(cU16(210), cU16(1)...), append(cU16(210), cU16(1)...)...)...)...)...)
 	set := append(append(cU16(1), cU16(4+len(rec))...), rec...)
 	msg := append([]byte{0, 9, 0, 1}, make([]byte, 16)...)
 	return append(msg, set...)''')
